@@ -211,7 +211,7 @@ c.ensures("implies(proxy_url is not None and destination_scheme == 'https' and p
 
 # ------------------------------------------------------------------ urlopen
 c = contract(f"{P}.urlopen", prop="C01")
-c.props.update({"C04", "C03"})
+c.props.update({"C04"})
 c.types(method="str", url="str", body="any", headers="opt:dict", retries="any", redirect="bool", assert_same_host="bool", timeout="any",
         pool_timeout="any", release_conn="any", chunked="bool", body_pos="any", preload_content="bool", decode_content="bool")
 c.kwarg_keys = []
